@@ -349,16 +349,16 @@ theorem C10_prepared_window (sem : Once) (k : Kind) (lo hi : Option (Raw α))
     | none => exact ⟨[], rfl, fun x => by simp [evalTerms, inWindow]⟩
     | some u =>
       refine ⟨[((onceTable sem).2, u.pt)], ?_, fun x => by simp [evalTerms, inWindow]⟩
-      simp [prepared, whereTerms, cast_ok k u (hhi u rfl), bind, Except.bind, pure, Except.pure]
+      simp [prepared, whereTerms, whereTermsWith, cast_ok k u (hhi u rfl), bind, Except.bind, pure, Except.pure]
   | some l =>
     cases hi with
     | none =>
       refine ⟨[((onceTable sem).1, l.pt)], ?_, fun x => by simp [evalTerms, inWindow]⟩
-      simp [prepared, whereTerms, cast_ok k l (hlo l rfl), bind, Except.bind, pure, Except.pure]
+      simp [prepared, whereTerms, whereTermsWith, cast_ok k l (hlo l rfl), bind, Except.bind, pure, Except.pure]
     | some u =>
       refine ⟨[((onceTable sem).1, l.pt), ((onceTable sem).2, u.pt)], ?_,
         fun x => by simp [evalTerms, inWindow]⟩
-      simp [prepared, whereTerms, cast_ok k l (hlo l rfl), cast_ok k u (hhi u rfl), bind,
+      simp [prepared, whereTerms, whereTermsWith, cast_ok k l (hlo l rfl), cast_ok k u (hhi u rfl), bind,
         Except.bind, pure, Except.pure]
 
 /-- a bound that cannot be cast to the column's kind is refused (`CastError`), never ignored -/
@@ -370,12 +370,34 @@ theorem C10_uncastable_refused (sem : Once) (k : Kind) (lo hi : Option (Raw α))
   have hc' : ∀ r : Raw α, cast k r = .error .castError ∨ cast k r = .ok r.pt := by
     intro r; unfold cast; split <;> simp
   rcases h with ⟨r, rfl, hr⟩ | ⟨r, rfl, hr⟩
-  · cases hi <;> simp [prepared, whereTerms, hc r hr, bind, Except.bind]
+  · cases hi <;> simp [prepared, whereTerms, whereTermsWith, hc r hr, bind, Except.bind]
   · cases lo with
-    | none => simp [prepared, whereTerms, hc r hr, bind, Except.bind, pure, Except.pure]
+    | none => simp [prepared, whereTerms, whereTermsWith, hc r hr, bind, Except.bind, pure, Except.pure]
     | some l =>
       rcases hc' l with hl | hl <;>
-        simp [prepared, whereTerms, hc r hr, hl, bind, Except.bind, pure, Except.pure]
+        simp [prepared, whereTerms, whereTermsWith, hc r hr, hl, bind, Except.bind, pure, Except.pure]
+
+/-! ### both bounds are interpreted by the same cast -/
+
+/-- **lower and upper are cast by the same function** (`self.column.kind.cast`): `Ordinal.where`
+is the two-parameter construction instantiated with the column kind's cast on *both* sides -/
+theorem C10_where_same_cast (sem : Once) (k : Kind) (lo hi : Option (Raw α)) :
+    whereTerms sem k lo hi = whereTermsWith sem (cast k) (cast k) lo hi := rfl
+
+/-- hence **consecutive windows share the cast bound**: whatever point `p` the cast makes of a
+caller-given bound `r` (it may differ from the value as given: `int(2.5) = 2`), that same `p` is
+what closes the window `(…, r)` and what opens the next window `(r, …)` -/
+theorem C10_consecutive_share_bound (sem : Once) (k : Kind) (r : Raw α) (p : α)
+    (h : cast k r = .ok p) :
+    whereTerms sem k none (some r) = .ok [((onceTable sem).2, p)] ∧
+    whereTerms sem k (some r) none = .ok [((onceTable sem).1, p)] := by
+  simp [whereTerms, whereTermsWith, h, bind, Except.bind, pure, Except.pure]
+
+/-- the term of a bound never depends on which side the *other* bound is or how it is spelt -/
+theorem C10_where_sides_independent (sem : Once) (k : Kind) (a b : Raw α) (p q : α)
+    (ha : cast k a = .ok p) (hb : cast k b = .ok q) :
+    whereTerms sem k (some a) (some b) = .ok [((onceTable sem).1, p), ((onceTable sem).2, q)] := by
+  simp [whereTerms, whereTermsWith, ha, hb, bind, Except.bind, pure, Except.pure]
 
 /-! ### histories of launches over data -/
 
@@ -566,6 +588,21 @@ theorem C10_records (sem : Once) (k : Kind) (b0 b1 : Raw α) (r : List (Raw α))
     simpa using C10_anomaly_only_at_bounds sem b0.pt b1.pt (r.map (·.pt)) hinc data[i] h1 h2 h3
 
 end records
+
+/-- why the symmetry matters: if the upper bound were interpreted differently from the lower one
+(here: upper left as given, `2.5` standing one rank above `int(2.5) = 2`), two consecutive
+exactly-once windows sharing that bound would deliver the record with ordinal `2` twice — the
+construction with two different interpretations does *not* satisfy the exactly-once clause -/
+theorem C10_asymmetric_cast_counterexample :
+    ¬ (∀ (castHi : Raw Int → Except Err Int) (a b c : Raw Int) (x : Int) (ta tb : List (Term Int)),
+        whereTermsWith .exactly (cast .integer) castHi (some a) (some b) = .ok ta →
+        whereTermsWith .exactly (cast .integer) castHi (some b) (some c) = .ok tb →
+        (if evalTerms ta x then 1 else 0) + (if evalTerms tb x then 1 else 0) ≤ 1) := by
+  intro h
+  have := h (fun r => .ok (r.pt + 1)) ⟨.int, 0, false⟩ ⟨.float, 2, true⟩ ⟨.int, 5, true⟩ 2
+    [(.ge, 0), (.lt, 3)] [(.ge, 2), (.lt, 6)] (by decide) (by decide)
+  revert this
+  decide
 
 /-- **bounds are interpreted in the column's kind**: whatever `kind.cast` hands to the bound
 operator is an instance of the kind's Python type (decided over all kind × value-class pairs) -/
